@@ -210,6 +210,13 @@ class _Twin(ast.NodeTransformer):
         node.value = self.visit(node.value)
         if isinstance(node.target, ast.Name):
             return [node, self.rebind(node.target.id, "aug", node)]
+        t = node.target
+        if isinstance(t, ast.Attribute) and isinstance(t.value, ast.Name):
+            # `o.at += v` is a store to o.at like `o.at = ...`: reported (and substituted) after it
+            nm = f"{t.value.id}.{t.attr}"
+            load = ast.Attribute(value=ast.Name(id=t.value.id, ctx=ast.Load()), attr=t.attr, ctx=ast.Load())
+            store = ast.Attribute(value=ast.Name(id=t.value.id, ctx=ast.Load()), attr=t.attr, ctx=ast.Store())
+            return [node, ast.Assign(targets=[store], value=self.site(nm, "attr", load, node), lineno=0)]
         return node
 
     def visit_AnnAssign(self, node):
